@@ -163,7 +163,7 @@ pub fn c02(seed: u64, tier: Tier) -> Vec<Episode> {
     }
     st.extend(history(&mut g, &cfg));
     st.push(Step::Reopen { params: Some(maps.iter().map(|_| pick_params(&mut g.rng, false)).collect()), xproc: g.rng.chance(1, 8) || thorough });
-    let checks = Checks { model: true, audit_traverse: true, decode_on_close: true, reopen_must_succeed: true, iter: true, ..Default::default() };
+    let checks = Checks { model: true, audit_traverse: true, decode_on_close: true, reopen_must_succeed: true, iter: true, decoder_scope: "contents".into(), ..Default::default() };
     let mut ep = base_episode("C02", name, seed, maps, st, checks);
     ep.buggify = buggify(&mut g, seed);
     vec![ep]
@@ -206,7 +206,7 @@ pub fn c03(seed: u64, tier: Tier) -> Vec<Episode> {
         3 => Step::DbSyncData { d: 0 },
         _ => Step::DbSyncAll { d: 0 },
     });
-    let mut checks = Checks { crash_points: true, sync_trace: true, crash_reopen_every: if thorough { 1 } else { 3 }, audit_traverse: true, ..Default::default() };
+    let mut checks = Checks { crash_points: true, sync_trace: true, crash_reopen_every: if thorough { 1 } else { 3 }, audit_traverse: true, decoder_scope: "contents".into(), ..Default::default() };
     let mut ep_buggify = buggify(&mut g, seed);
     // crash twin (real process, real kernel, SIGKILL at a sync point): a sample of the episodes
     if seed % (if thorough { 25 } else { 150 }) == 0 {
@@ -352,7 +352,7 @@ pub fn c06(seed: u64, tier: Tier) -> Vec<Episode> {
         st = history(&mut g, &cfg);
         st.push(Step::Stats { h: 0 });
     }
-    let checks = Checks { growth_rule: true, post_update: true, decode_on_close: true, accounting: true, ..Default::default() };
+    let checks = Checks { growth_rule: true, post_update: true, decode_on_close: true, accounting: true, decoder_scope: "storage".into(), ..Default::default() };
     vec![base_episode("C06", name, seed, maps, st, checks)]
 }
 
@@ -416,7 +416,7 @@ pub fn c07(seed: u64, tier: Tier, index: u64) -> Vec<Episode> {
     let cfg = HistCfg { maps: proto.clone(), alphabet: g.rng.range(2, 40) as usize, kd: KeyDist::Mixed, vd, steps: g.rng.range(20, 250) as usize, w, one_bucket: false, reopen_params: true, xproc_every: 0, bulk_max: 6 };
     let st = history(&mut g, &cfg);
     let n_cfg = g.rng.range(3, 6) as usize;
-    let checks = Checks { model: true, audit_every: 64, audit_traverse: true, iter: true, panics: true, reopen_must_succeed: true, decode_on_close: true, ..Default::default() };
+    let checks = Checks { model: true, audit_every: 64, audit_traverse: true, iter: true, panics: true, reopen_must_succeed: true, decode_on_close: true, decoder_scope: "contents".into(), ..Default::default() };
     let mut out = Vec::new();
     for c in 0..n_cfg {
         let mut r = Rng::new(mix(&[seed, 0xc07, c as u64]));
@@ -510,7 +510,7 @@ pub fn c08(seed: u64, tier: Tier) -> Vec<Episode> {
             }
         }
     }
-    let checks = Checks { model: true, audit_every: 16, post_update: true, panics: true, decode_on_close: true, ..Default::default() };
+    let checks = Checks { model: true, audit_every: 16, post_update: true, panics: true, decode_on_close: true, decoder_scope: "contents".into(), ..Default::default() };
     vec![base_episode("C08", "collision-chain", seed, maps, st, checks)]
 }
 
@@ -611,7 +611,7 @@ pub fn c09(seed: u64, tier: Tier, index: u64) -> Vec<Episode> {
         }
     }
     st.push(Step::Audit);
-    let checks = Checks { model: true, post_update: true, sentinel: true, decode_on_close: true, ..Default::default() };
+    let checks = Checks { model: true, post_update: true, sentinel: true, decode_on_close: true, decoder_scope: "fit".into(), ..Default::default() };
     vec![base_episode("C09", if is_key { "key-length-sweep" } else { "value-length-sweep" }, seed, maps, st, checks)]
 }
 
@@ -999,7 +999,7 @@ pub fn c16(seed: u64, tier: Tier) -> Vec<Episode> {
     st.push(Step::Lift);
     st.push(sync(&mut g));
     st.push(Step::Audit);
-    let checks = Checks { model: true, fault_report: true, crash_points: true, sync_trace: true, crash_reopen_every: 1, audit_traverse: true, ..Default::default() };
+    let checks = Checks { model: true, fault_report: true, crash_points: true, sync_trace: true, crash_reopen_every: 1, audit_traverse: true, decoder_scope: "contents".into(), ..Default::default() };
     vec![base_episode("C16", "base", seed, maps, st, checks)]
 }
 
